@@ -539,7 +539,21 @@ func ruleC17BracketGuard(c *Ctx) {
 		n++
 		guarded := false
 		for _, fc := range relFacts(factsAt(b)) {
-			if isNilConst(fc.y) && fc.r == relEQ {
+			if fc.r != relEQ {
+				continue
+			}
+			// the open-quote state is a loop-carried variable compared with its neutral value: nil (pointer form) or 0 (byte form)
+			neutral := isNilConst(fc.y)
+			if k0, isK := constIntOf(fc.y); isK && k0 == 0 {
+				neutral = true
+			}
+			if !neutral {
+				continue
+			}
+			if ph, isPhi := fc.x.(*ssa.Phi); isPhi && loopCarried(f, ph) {
+				guarded = true
+			}
+			if isNilConst(fc.y) {
 				t := NewTB().Of(fc.x)
 				if strings.Contains(t.String(), "hold") || t.Op == "phi" || t.Typ != nil && strings.HasPrefix(t.Typ.String(), "*") {
 					guarded = true
@@ -1038,4 +1052,31 @@ func ruleC17PrepareData(c *Ctx) {
 	if n < 3 {
 		c.Unknown("c17.prepare-data", "Query.data", "-", fmt.Sprintf("only %d stores to Query.data found", n))
 	}
+}
+
+
+// loopCarried: the phi is (or merges, through other phis) a phi of a loop header.
+func loopCarried(f *ssa.Function, ph *ssa.Phi) bool {
+	hs := map[*ssa.BasicBlock]bool{}
+	for _, h := range loopHeaders(f) {
+		hs[h] = true
+	}
+	seen := map[*ssa.Phi]bool{}
+	var visit func(p *ssa.Phi) bool
+	visit = func(p *ssa.Phi) bool {
+		if seen[p] {
+			return false
+		}
+		seen[p] = true
+		if hs[p.Block()] {
+			return true
+		}
+		for _, e := range p.Edges {
+			if q, ok := e.(*ssa.Phi); ok && visit(q) {
+				return true
+			}
+		}
+		return false
+	}
+	return visit(ph)
 }
